@@ -242,11 +242,24 @@ def check_C17(tier):
         rep.floor("%s: format constants" % cfg, len(obs), 22)
         rep.add(cfg, obs)
     rep.analysed = {"configurations": cl}
-    rep.note("helper bodies (is_denormal/exponent/mantissa/extended_to_float/b/bh) are decided by the bit-level part when present; see coverage.bitlevel")
+    # helper bodies: interval analysis per class of bit patterns (a finite partition of all 2^32 / 2^64 patterns)
+    bcl = ["default"] if tier == "quick" else F.ALL_CONFIGS
+    jobs = [{"config": c, "mode": m, "model": "valid", "kind": "bits", "target": fty}
+            for c in bcl for m in (("dbg",) if tier == "quick" else ("dbg", "rel")) for fty in ("f32", "f64")]
+    results = run_jobs(jobs)
+    bfx = F.build_many([(c, "dbg") for c in bcl])
+    _e4_report(rep, "C17", results, lambda j: "%s/%s %s helper bodies" % (j["config"], j["mode"], j["target"]),
+               {"%s/%s %s helper bodies" % (j["config"], j["mode"], j["target"]): bfx[(j["config"], "dbg")] for j in jobs}, floor_per_group=190)
+    rep.note("helper bodies: is_denormal / exponent / mantissa / slow::b / slow::bh / extended_to_float are analysed by E4 with floats carried as "
+             "bit patterns, once per class of a partition of ALL bit patterns into 26 intervals (sign x exponent-field class x fraction class); "
+             "on each class the result interval must lie inside what the IEEE-754 decoding (derived from the compiler's parameters) assigns. "
+             "Singleton exponent classes {0},{1},{max-1},{max} and fraction end-points are exact; inside the wide middle class the check is an interval inclusion.")
     return rep.finish(
         "other",
         "All mask/bias/size constants of both Float impls, as evaluated by rustc, equal the IEEE-754 definitions derived from the compiler's "
-        "own MANTISSA_DIGITS and MAX_EXP (11 equalities per format), in every configuration.",
+        "own MANTISSA_DIGITS and MAX_EXP (11 equalities per format), in every configuration. Helper bodies: for every class of a finite interval "
+        "partition of all bit patterns, abstract execution of the monomorphic MIR of each helper yields a result inside the interval required by the "
+        "IEEE-754 decoding of that class (is_denormal exact; exponent, mantissa, b, bh, extended_to_float by inclusion).",
         [A_TOOL, A_TARGET],
     )
 
